@@ -5,6 +5,7 @@ mod alloc;
 mod elem;
 mod gen;
 mod ops;
+mod watch;
 mod extra;
 
 use elem::*;
@@ -72,7 +73,7 @@ pub fn finish(w: &mut World) {
         w.fails.borrow_mut().push(DirectFail { props: vec!["C06"], op_index: w.op_index, what: format!("{live} key/value objects still live after every map was dropped") });
     }
     let lt = alloc::live_tables();
-    if lt != 0 {
+    if lt != 0 && !w.leak_allowed {
         w.fails.borrow_mut().push(DirectFail { props: vec!["C06", "C03"], op_index: w.op_index, what: format!("{lt} table allocations still live after every map was dropped") });
     }
     for a in take_anomalies() {
@@ -96,25 +97,31 @@ pub fn fresh_world(hk: HKind) -> World {
 pub fn run_ops(hk: HKind, ops: &[(usize, Op)], quiet: bool) -> World {
     let mut w = fresh_world(hk);
     w.quiet_transcript = quiet;
-    for (mid, op) in ops {
+    for (i, (mid, op)) in ops.iter().enumerate() {
+        watch::beat(127, i);
         w.exec(*mid, op);
     }
+    watch::beat(127, ops.len());
     finish(&mut w);
+    watch::idle(127);
     w
 }
 
-fn gen_history(id: usize, seed: u64, slice: Slice, nops: usize, max_len: usize, progress: &str) -> HistResult {
+fn gen_history(slot: usize, id: usize, seed: u64, slice: Slice, nops: usize, max_len: usize, progress: &str, quiet: bool) -> HistResult {
     let hseed = seed.wrapping_mul(1_000_003).wrapping_add(id as u64);
     let mut g = Gen::new(hseed, slice, max_len);
     // the fully colliding hasher is quadratic: only for small targets
     let hk = match g.rng.below(5) {
         0 | 1 => HKind::Mul,
-        2 | 3 => HKind::Low,
+        2 | 3 => {
+            if g.target <= 8000 { HKind::Low } else { HKind::Mul }
+        }
         _ => {
             if g.target <= 300 { HKind::Const } else { HKind::Mul }
         }
     };
     let mut w = fresh_world(hk);
+    w.quiet_transcript = quiet;
     let pfile = if progress.is_empty() { String::new() } else { format!("{progress}/h{id}.ops") };
     if !pfile.is_empty() {
         if let Ok(mut f) = std::fs::File::create(&pfile) {
@@ -124,11 +131,14 @@ fn gen_history(id: usize, seed: u64, slice: Slice, nops: usize, max_len: usize, 
     }
     let mut ops = vec![];
     for _ in 0..nops {
+        watch::beat(slot, id);
         let (mid, op) = g.next(&w);
         w.exec(mid, &op);
         ops.push((mid, op));
     }
+    watch::beat(slot, id);
     finish(&mut w);
+    watch::idle(slot);
     w.progress = None;
     if !pfile.is_empty() {
         let _ = std::fs::remove_file(&pfile);
@@ -265,6 +275,7 @@ fn main() {
 fn cmd_replay(args: &[String]) {
     let file = arg(args, "--file").expect("--file");
     let (hk, ops) = read_ops_file(file);
+    watch::start();
     let w = run_ops(hk, &ops, false);
     println!("{}", header("replay", hk));
     for l in &w.transcript {
@@ -290,19 +301,22 @@ fn cmd_run(args: &[String]) {
     let replay_dir = arg(args, "--replays").unwrap_or("").to_string();
     let tag = arg(args, "--tag").unwrap_or("run").to_string();
     let progress = arg(args, "--progress").unwrap_or("").to_string();
+    let quiet = args.iter().any(|a| a == "--no-transcript");
 
     let next = AtomicUsize::new(0);
     let results: Mutex<Vec<HistResult>> = Mutex::new(vec![]);
+    watch::start();
     std::thread::scope(|s| {
-        for _ in 0..threads {
-            s.spawn(|| {
+        for slot in 0..threads {
+            let (next, results, progress) = (&next, &results, &progress);
+            s.spawn(move || {
                 install_panic_hook();
                 loop {
                     let i = next.fetch_add(1, Ordering::SeqCst);
                     if i >= hists {
                         break;
                     }
-                    let r = gen_history(i, seed, slice, nops, max_len, &progress);
+                    let r = gen_history(slot, i, seed, slice, nops, max_len, progress, quiet);
                     results.lock().unwrap().push(r);
                 }
             });
